@@ -1712,6 +1712,8 @@ class Interp:
                 ov = self.model.override(fn['name'])
                 if ov is not None:
                     return ov(self, fn, args, s, n)
+                if self.model.opaque is not None and fn['name'] not in self.model.opaque:
+                    return self.model.opaque_call(self, fn, args, s, n)
                 return self.call_fn(fn, s, args, n)
             return self.model.library(f[2], args, s, self, n)
         if isinstance(f, tuple) and f[0] == 'fn':
